@@ -25,15 +25,23 @@ import (
 // All arguments are integers, so the reference is a few lines of arithmetic.
 
 type nCall struct {
-	Name string
-	Args []nArg
+	Name    string
+	Args    []nArg
+	Swapped bool // written as f(b = .., a = ..)
 }
 
 type nArg struct {
 	Lit  int64
 	Call *nCall
 	Name string // non-empty: written as a named argument
+	Var  string // non-empty: the value is read from this script variable
 }
+
+// script variables named like the parameters; the script never assigns them
+// again, so a call that is given one receives this value - before, between
+// and after calls that bind parameters of the same names
+var nVarVals = map[string]int64{"a": 501, "b": 602, "rest": 703}
+var nVarNames = []string{"a", "b", "rest"}
 
 type nEvent struct {
 	Name string
@@ -56,6 +64,8 @@ func genNCall(r *rand.Rand, d int) *nCall {
 	for i := 0; i < n; i++ {
 		if d > 0 && r.Intn(3) == 0 {
 			c.Args = append(c.Args, nArg{Call: genNCall(r, d-1)})
+		} else if r.Intn(4) == 0 {
+			c.Args = append(c.Args, nArg{Var: nVarNames[r.Intn(len(nVarNames))]})
 		} else {
 			c.Args = append(c.Args, nArg{Lit: int64(r.Intn(90) + 1)})
 		}
@@ -67,9 +77,14 @@ func genNCall(r *rand.Rand, d int) *nCall {
 		from := r.Intn(len(c.Args))
 		for i := from; i < len(c.Args); i++ {
 			c.Args[i].Name = names[i]
-			if c.Args[i].Call == nil && d > 0 && r.Intn(2) == 0 {
+			if c.Args[i].Call == nil && c.Args[i].Var == "" && d > 0 && r.Intn(2) == 0 {
 				c.Args[i].Call = genNCall(r, d-1)
 			}
+		}
+		// both named: also in the other order (values without calls, so that
+		// the order of evaluation does not matter)
+		if from == 0 && len(c.Args) == 2 && c.Args[0].Call == nil && c.Args[1].Call == nil && r.Intn(2) == 0 {
+			c.Swapped = true
 		}
 	}
 	return c
@@ -82,11 +97,17 @@ func (c *nCall) text() string {
 		if x.Name != "" {
 			pre = x.Name + " = "
 		}
-		if x.Call != nil {
+		switch {
+		case x.Call != nil:
 			a = append(a, pre+x.Call.text())
-		} else {
+		case x.Var != "":
+			a = append(a, pre+x.Var)
+		default:
 			a = append(a, pre+fmt.Sprint(x.Lit))
 		}
+	}
+	if c.Swapped {
+		a[0], a[1] = a[1], a[0]
 	}
 	return c.Name + "(" + strings.Join(a, ", ") + ")"
 }
@@ -95,9 +116,12 @@ func (c *nCall) text() string {
 func (c *nCall) eval(log *[]nEvent) int64 {
 	var vals []int64
 	for _, x := range c.Args {
-		if x.Call != nil {
+		switch {
+		case x.Call != nil:
 			vals = append(vals, x.Call.eval(log))
-		} else {
+		case x.Var != "":
+			vals = append(vals, nVarVals[x.Var])
+		default:
 			vals = append(vals, x.Lit)
 		}
 	}
@@ -138,6 +162,7 @@ func (c19) nested(c *mon.Ctx) {
 	for i := 0; i < n; i++ {
 		calls = append(calls, genNCall(r, 2))
 	}
+	src.WriteString("a = 501\nb = 602\nrest = 703\n")
 	if loop {
 		src.WriteString("for i = 0; i < 2; i = i + 1 {\n")
 	}
@@ -147,6 +172,8 @@ func (c19) nested(c *mon.Ctx) {
 	if loop {
 		src.WriteString("}\n")
 	}
+	// binding parameters by name leaves the script's variables of those names alone
+	src.WriteString("xe = v(a, b, rest)\n")
 	var want []nEvent
 	rounds := 1
 	if loop {
@@ -157,6 +184,7 @@ func (c19) nested(c *mon.Ctx) {
 			cl.eval(&want)
 		}
 	}
+	want = append(want, nEvent{"v", []int64{501, 602, 703}})
 
 	var got []nEvent
 	defaultWrong := ""
@@ -235,7 +263,7 @@ func (c19) nested(c *mon.Ctx) {
 	}
 	out := drive.RunV2(s, &drive.RunState{Budget: 20000})
 	c.Nontrivial(text)
-	nested := strings.Count(text, "(") - len(calls)
+	nested := strings.Count(text, "(") - len(calls) - 1
 	c.Count("nested_calls_executed", nested*rounds)
 	switch {
 	case out.Panic != nil:
